@@ -308,8 +308,16 @@ pub fn run(seed: u64, thorough: bool, out_dir: &std::path::Path) -> Out {
                         let nd = tree.node(*id);
                         format!("(mkBB {} {} {} false false, {}, {})", coq_n(nd.id as u128), coq_n(nd.parent as u128), coq_bool(nd.kind == Kind::Valid), coq_bool(nd.kind != Kind::BadTxRoot), coq_nat(*o))
                     }).collect();
-                    files[sh].push(1, format!("mkBCase {}", coq_list(&steps, |x| x.clone())));
-                    descs[sh].entry("broker".into()).or_default().push(d);
+                    // Chain/Broker.v describes first deliveries; what the chain service does with a block it is handed a second time
+                    // (already parked, already queued, already verified) is not part of that model: such schedules are left to
+                    // the fork-choice cases above
+                    let distinct_ids: HashSet<u64> = sched.iter().cloned().collect();
+                    if distinct_ids.len() == sched.len() {
+                        files[sh].push(1, format!("mkBCase {}", coq_list(&steps, |x| x.clone())));
+                        descs[sh].entry("broker".into()).or_default().push(d);
+                    } else {
+                        *out.stats.entry("broker_cases_skipped_repeated_delivery".into()).or_default() += 1;
+                    }
                     case_no += 1;
                 }
             }
